@@ -74,6 +74,11 @@ def item_shapes():
               "struct S(fn(u8) -> u8, *const u8, [u8; 4], (u8, u8), &'static str, dyn_ty::X<u8>, <u8 as Tr>::A, !, impl_ty::Y);",
               "struct S(Box<dyn Fn(u8) -> u8 + Send + 'static>, &'static (dyn core::any::Any + Send));",
               "struct S<T: ?Sized>(T);", "#[repr(u8)] enum E { A = 1 << 2, B }", "#[repr(C, align(8))] enum E { A, B }",
+              # the same exotic field types inside GENERIC items (the type walks of the derives return early when there is no type parameter)
+              "struct S<T>(T, fn(u8) -> u8, *const u8, [u8; 4], (u8, u8), &'static str, Box<dyn Fn(u8) -> u8 + Send + 'static>, &'static (dyn core::any::Any + Send + 'static));",
+              "struct S<'a, T: ?Sized>(&'a (dyn core::fmt::Debug + 'a), Box<dyn core::any::Any + 'static>, Box<dyn 'static + Send>, &'a T);",
+              "enum E<T> { A(T, Box<dyn core::any::Any + Send + 'static>), B { x: &'static (dyn core::fmt::Debug + Sync), y: fn(T) -> T }, C(dyn_ty::X<T>, <u8 as Tr>::A, [T; 2], (T, u8), !) }",
+              "struct S<T> { a: Option<&'static T>, b: ::core::marker::PhantomData<T>, c: impl_ty::Y, d: Box<dyn Iterator<Item = T> + 'static>, e: (T), f: &'static [T] }",
               "pub(crate) struct S(pub u8, pub(crate) u16);", "#[doc = \"x\"] #[allow(dead_code)] #[cfg_attr(all(), derive(Clone))] struct S(#[doc = \"y\"] u8);"]
     return shapes
 
@@ -221,7 +226,7 @@ def part_f(chk, thorough):
     import c09
     import c17
     reqs = list(c01.build(thorough)[4])
-    for d, desc, forms in c17.rewrites():
+    for d, desc, forms in c17.all_spellings():
         reqs += [{"derive": d, "item": f} for f in forms]
     reqs += [{"derive": d, "item": item} for d, cls, item, rustc in c17.corruptions()]
     for named, fields in c09.layouts(3):
